@@ -542,3 +542,168 @@ Proof.
   - pose proof (alt_of_lits_some ws w (step (mkSt None 0 (l :: rest)) l rest)) as H. cbn [SentenceRegex.rest step] in H.
     rewrite <- H. destruct (mt (alt_of_lits w ws) st _ _); reflexivity.
 Qed.
+
+(* ================= SPACES = .+\s+ ================= *)
+Definition SPACES_EXPECTED : re := RCat (RRep RAny 1) (RRep RWs 1).
+
+(* the rest of the pattern after `.+` *)
+Definition K_ws (s' : st) : option st := mt (RRep RWs 1) st s' (fun x => Some x).
+
+Lemma K_ws_eq s' : K_ws s' = if 1 <=? span is_ws (rest s') then Some (advn (span is_ws (rest s')) s') else None.
+Proof. unfold K_ws. apply (mt_rep_one_end _ _ _ _ onechar_ws). Qed.
+
+Lemma pos_K_ws s' : pos_of (K_ws s') = if 1 <=? span is_ws (rest s') then Some (pos s' + span is_ws (rest s')) else None.
+Proof.
+  rewrite K_ws_eq. destruct (1 <=? span is_ws (rest s')); [|reflexivity]. cbn [pos_of].
+  destruct (advn_rest (span is_ws (rest s')) s' (span_le _ _)) as [_ B]. rewrite B. reflexivity.
+Qed.
+
+Lemma lf_is_ws : is_ws 10 = true.
+Proof. vm_compute. reflexivity. Qed.
+
+Lemma not_lf_false c : not_lf c = false -> c = 10%N.
+Proof. unfold not_lf. intros H. lia. Qed.
+
+(* `.*` (what is left of `.+` after its first character) followed by \s+ *)
+Definition G0 (s : st) (t : list N) : option st := greedy not_lf K_ws 0 s t.
+
+Lemma G0_ws s d tl : rest s = d :: tl -> is_ws d = true -> G0 s (d :: tl) <> None.
+Proof.
+  intros Hs Hd. unfold G0. cbn [greedy].
+  assert (HK : K_ws s <> None).
+  { rewrite K_ws_eq, Hs. cbn [span]. rewrite Hd. cbn. discriminate. }
+  destruct (not_lf d).
+  - destruct (greedy not_lf K_ws (0 - 1) (step s d tl) tl); [discriminate|]. cbn. assumption.
+  - cbn. assumption.
+Qed.
+
+Lemma line_scan_is_G0 : forall t s acc, rest s = t ->
+  or_else (pos_of (G0 s t)) acc = line_scan (pos s) t acc.
+Proof.
+  induction t as [|c tl IH]; intros s acc Hs.
+  - unfold G0. cbn [greedy line_scan]. cbn [Nat.eqb]. rewrite pos_K_ws, Hs. reflexivity.
+  - cbn [line_scan]. unfold G0. cbn [greedy].
+    destruct (c =? 10)%N eqn:Ec.
+    + assert (c = 10%N) by lia. subst c. unfold not_lf. cbn [negb]. rewrite N.eqb_refl. cbn [negb Nat.eqb].
+      rewrite pos_K_ws, Hs. cbn [span]. rewrite lf_is_ws. cbn [Nat.leb]. reflexivity.
+    + assert (Hnl : not_lf c = true) by (unfold not_lf; rewrite Ec; reflexivity). rewrite Hnl.
+      change (greedy not_lf K_ws (0 - 1) (step s c tl) tl) with (G0 (step s c tl) tl).
+      pose proof (IH (step s c tl) (if is_ws c then Some (S (pos s)) else acc) eq_refl) as HIH. cbn [pos step] in HIH.
+      rewrite <- HIH. clear HIH.
+      destruct (G0 (step s c tl) tl) as [x|] eqn:EG; [reflexivity|]. cbn [pos_of or_else Nat.eqb].
+      rewrite pos_K_ws, Hs. cbn [span].
+      destruct (is_ws c) eqn:Ew; [|reflexivity].
+      assert (Hsp : span is_ws tl = 0).
+      { destruct tl as [|d tl']; [reflexivity|]. cbn [span]. destruct (is_ws d) eqn:Ed; [|reflexivity].
+        exfalso. eapply (G0_ws (step s c (d :: tl')) d tl'); [reflexivity|exact Ed|exact EG]. }
+      rewrite Hsp. cbn [Nat.leb or_else]. f_equal. lia.
+Qed.
+
+(* one attempt of the engine at the head of t *)
+Lemma spaces_at pv t :
+  re_match_at SPACES_EXPECTED pv t =
+  match t with
+  | c :: r => if (c =? 10)%N then None else line_scan 1 r None
+  | [] => None
+  end.
+Proof.
+  rewrite re_match_at_eq. unfold SPACES_EXPECTED. rewrite mt_cat.
+  change (fun s' : st => mt (RRep RWs 1) st s' (fun s'0 : st => Some s'0)) with K_ws.
+  rewrite (mt_rep_one RAny not_lf 1 st _ K_ws onechar_any). cbn [rest].
+  destruct t as [|c r]; [reflexivity|]. cbn [greedy]. unfold not_lf at 1.
+  destruct (c =? 10)%N eqn:Ec; cbn [negb]; [reflexivity|].
+  change (greedy not_lf K_ws (1 - 1) (step (mkSt pv 0 (c :: r)) c r) r) with (G0 (step (mkSt pv 0 (c :: r)) c r) r).
+  pose proof (line_scan_is_G0 r (step (mkSt pv 0 (c :: r)) c r) None eq_refl) as H. cbn [pos step] in H.
+  rewrite <- H. destruct (G0 _ r); reflexivity.
+Qed.
+
+Lemma line_scan_shift : forall t i j acc,
+  line_scan (i + j) t (option_map (Nat.add i) acc) = option_map (Nat.add i) (line_scan j t acc).
+Proof.
+  induction t as [|c tl IH]; intros i j acc; cbn [line_scan]; [reflexivity|].
+  destruct (c =? 10)%N; [cbn [option_map]; f_equal; lia|].
+  replace (S (i + j)) with (i + S j) by lia.
+  replace (if is_ws c then Some (i + S j) else option_map (Nat.add i) acc)
+    with (option_map (Nat.add i) (if is_ws c then Some (S j) else acc)) by (destruct (is_ws c); reflexivity).
+  apply IH.
+Qed.
+
+Lemma line_scan_keeps_acc : forall t n a, a <> None -> line_scan n t a <> None.
+Proof.
+  induction t as [|d tl IH]; intros n a Ha; cbn [line_scan]; [assumption|].
+  destruct (d =? 10)%N; [discriminate|]. apply IH. destruct (is_ws d); [discriminate|assumption].
+Qed.
+
+Lemma line_scan_none : forall t j acc, line_scan j t acc = None -> Forall (fun c => is_ws c = false) t.
+Proof.
+  induction t as [|c tl IH]; intros j acc H; [constructor|]. cbn [line_scan] in H.
+  destruct (c =? 10)%N; [discriminate|]. destruct (is_ws c) eqn:Ew.
+  - exfalso. eapply line_scan_keeps_acc; [|exact H]. discriminate.
+  - constructor; [assumption|]. eapply IH; eassumption.
+Qed.
+
+Lemma line_scan_no_ws : forall t j, Forall (fun c => is_ws c = false) t -> line_scan j t None = None.
+Proof.
+  induction t as [|c tl IH]; intros j H; [reflexivity|]. inversion H as [|? ? Hc Htl]; subst. cbn [line_scan].
+  destruct (c =? 10)%N eqn:Ec.
+  - assert (c = 10%N) by lia. subst. rewrite lf_is_ws in Hc. discriminate.
+  - rewrite Hc. apply IH. assumption.
+Qed.
+
+Lemma search_no_ws : forall t pv i, Forall (fun c => is_ws c = false) t -> re_search SPACES_EXPECTED pv i t = None.
+Proof.
+  induction t as [|c tl IH]; intros pv i H; cbn [re_search]; rewrite spaces_at; [reflexivity|].
+  inversion H as [|? ? Hc Htl]; subst.
+  destruct (c =? 10)%N; [apply IH; assumption|]. rewrite (line_scan_no_ws tl 1 Htl). apply IH. assumption.
+Qed.
+
+(* SPACES.find(&s): end of the leftmost match *)
+Lemma spaces_from_is_search : forall t pv i, spaces_from i t = option_map snd (re_search SPACES_EXPECTED pv i t).
+Proof.
+  induction t as [|c tl IH]; intros pv i; cbn [re_search spaces_from]; rewrite spaces_at; [reflexivity|].
+  destruct (c =? 10)%N; [apply IH|].
+  pose proof (line_scan_shift tl i 1 None) as Hs. cbn [option_map] in Hs. replace (i + 1) with (S i) in Hs by lia. rewrite Hs.
+  destruct (line_scan 1 tl None) as [m|] eqn:E; [reflexivity|]. cbn [option_map].
+  rewrite (search_no_ws tl (Some c) (S i) (line_scan_none _ _ _ E)). reflexivity.
+Qed.
+
+Lemma spaces_end_is_pattern s : spaces_end s = re_find_end SPACES_EXPECTED s.
+Proof. unfold spaces_end, re_find_end, re_find. apply spaces_from_is_search. Qed.
+
+(* ================= all patterns together, stated on the regenerated ASTs ================= *)
+Definition patterns_as_expected : Prop :=
+  RX.SENTENCE_BREAKER_RE = BREAKER_EXPECTED /\ RX.PARENTHESIS_RE = PARENTHESIS_EXPECTED /\
+  RX.PROHIBITED_BOS_RE = PROHIBITED_EXPECTED /\ RX.ITEMIZE_HEADER_RE = ITEMIZE_EXPECTED /\
+  RX.QUOTE_MARKER_RE = QUOTE_EXPECTED /\ RX.EOS_ITEMIZE_HEADER_RE = EOS_ITEMIZE_EXPECTED /\
+  RX.SPACES_RE = SPACES_EXPECTED.
+
+Definition matchers_agree_statement : Prop :=
+  (* SENTENCE_BREAKER: one attempt at a position (pv = the character before it), and find_iter over the window *)
+  (forall pv t, breaker_len pv t = re_match_at RX.SENTENCE_BREAKER_RE pv t) /\
+  (forall s, candidates s = re_find_iter_ends RX.SENTENCE_BREAKER_RE 0 None 0 s) /\
+  (* PARENTHESIS: captures_iter, +1 when group 1 took part, else -1 unless 0 *)
+  (forall t, Some (plevel 0 t) = re_paren_level RX.PARENTHESIS_RE t) /\
+  (* PROHIBITED_BOS: end of find(s), 0 without a match *)
+  (forall t, prohibited_bos t = match re_find RX.PROHIBITED_BOS_RE t with Some (_, e) => e | None => 0 end) /\
+  (* ITEMIZE_HEADER.is_match(s) *)
+  (forall s, itemize_header s = re_is_match RX.ITEMIZE_HEADER_RE s) /\
+  (* QUOTE_MARKER.find(slice) with mat.start() == 0, slice = last character l of the candidate followed by rest *)
+  (forall l rest, quote_at l rest = match re_match_at RX.QUOTE_MARKER_RE None (l :: rest) with Some _ => true | None => false end) /\
+  (* EOS_ITEMIZE_HEADER.is_match(&s[..eos]) *)
+  (forall t, ends_an_dot t = re_is_match RX.EOS_ITEMIZE_HEADER_RE t) /\
+  (* SPACES.find(&s): end of the match *)
+  (forall s, spaces_end s = re_find_end RX.SPACES_RE s).
+
+Lemma matchers_agree : patterns_as_expected -> tags_ok_b F.BR_TAGS = true -> 1 <= F.BR_MIN -> 1 <= F.CDOTS_MIN ->
+  matchers_agree_statement.
+Proof.
+  intros [E1 [E2 [E3 [E4 [E5 [E6 E7]]]]]] Ht Hb Hc. apply tags_ok_of_b in Ht.
+  unfold matchers_agree_statement. rewrite E1, E2, E3, E4, E5, E6, E7.
+  split; [intros; apply breaker_len_is_pattern; assumption|].
+  split; [intros; apply candidates_is_find_iter; assumption|].
+  split; [apply plevel_is_pattern|].
+  split; [apply prohibited_bos_is_pattern|].
+  split; [apply itemize_header_is_pattern|].
+  split; [apply quote_at_is_pattern|].
+  split; [apply ends_an_dot_is_pattern|apply spaces_end_is_pattern].
+Qed.
